@@ -523,7 +523,8 @@ impl Check {
 						cases: per,
 						failure_persistence: None,
 						rng_seed: RngSeed::Fixed(seed),
-						max_shrink_iters: 4000,
+						max_shrink_iters: 600,
+						max_shrink_time: 120_000,
 						max_global_rejects: 100_000,
 						..Config::default()
 					};
@@ -552,6 +553,7 @@ impl Check {
 						}
 					});
 					agg.lock().unwrap().merge(local.into_inner());
+					crate::util::shutdown_thread_runtime();
 					match result {
 						Ok(()) => {}
 						Err(TestError::Fail(reason, case)) => {
@@ -670,6 +672,7 @@ impl Check {
 						}
 					}
 					agg.lock().unwrap().merge(local);
+					crate::util::shutdown_thread_runtime();
 				});
 			}
 		});
